@@ -60,7 +60,12 @@ def _special(population):
     """population > 0: N caller threads alive at once; population < 0: big-input profile of depth -N"""
     if not population:
         return []
-    return ["--population", str(population)] if population > 0 else ["--big", str(-population)]
+    if population > 0:
+        return ["--population", str(population)]
+    if population <= -100:
+        # dense-boundary variant of the big-input profile
+        return ["--big", str(-population - 100), "--variant", "1"]
+    return ["--big", str(-population)]
 
 
 def run_one(scn_seed, miri_seed, threads_mask=None, max_ops=None, population=None):
@@ -110,10 +115,11 @@ def minimise(fail, jobs):
     best = dict(fail)
     if (fail.get("population") or 0) < 0:
         # big-input profile: smaller inputs, side by side
-        n = -fail["population"]
+        code = -fail["population"]
+        base, n = (100, code - 100) if code >= 100 else (0, code)
         cands = [c for c in (n - 2, n - 1) if c >= 3]
         with ThreadPoolExecutor(max_workers=jobs) as ex:
-            res = list(ex.map(lambda c: run_one(fail["scn_seed"], fail["miri_seed"], None, None, -c), cands))
+            res = list(ex.map(lambda c: run_one(fail["scn_seed"], fail["miri_seed"], None, None, -(base + c)), cands))
         for r in res:
             if r["kind"] == kind:
                 best = r
@@ -176,7 +182,8 @@ def minimise(fail, jobs):
 
 def population_pairs(seed, executions):
     # (negative: big-input profile, two threads with one call each on inputs of 5*4^(d-1) cells)
-    pops = [130, 33, -7, -5] if executions <= 256 else [257, 131, 130, 129, 129, 66, 65, 34, 33, 18, 17, -7, -7, -7, -6, -6, -5, -8]
+    # (-(100+d): the same with a dense boundary - 10 240 vertices for d = 7 - instead of compact)
+    pops = [130, 33, -7, -107, -5] if executions <= 256 else [257, 131, 130, 129, 129, 66, 65, 34, 33, 18, 17, -7, -7, -7, -6, -6, -5, -8, -107, -107, -106, -105]
     return [((seed * 31 + 977 * j) % (1 << 48), (seed + 7 * j) % (1 << 31), n) for j, n in enumerate(pops)]
 
 
@@ -308,7 +315,8 @@ def run_engine(seed, executions, jobs, replay_dir, seeds_per_scenario=4, populat
         "executions_per_hour": int(len(results) / run_wall * 3600),
         "scenario_seeds": n_scn,
         "population_profile_executions(threads alive at once)": {str(n): pops.count(n) for n in sorted(set(pops)) if n > 0},
-        "big_input_profile_executions(cells per argument; oracle = data-race detector)": {str(5 * 4 ** (-n - 1)): pops.count(n) for n in sorted(set(pops)) if n < 0},
+        "big_input_profile_executions(cells per compact argument; oracle = data-race detector)": {str(5 * 4 ** (-n - 1)): pops.count(n) for n in sorted(set(pops)) if -100 < n < 0},
+        "big_input_profile_executions(vertices per boundary; oracle = data-race detector)": {str(5 * (2048 if -n - 100 >= 7 else 2 ** (-n - 100 + 3))): pops.count(n) for n in sorted(set(pops)) if n <= -100},
         "miri_seeds_per_scenario": seeds_per_scenario,
         "outcomes": kinds,
         "simulated_time": {"note": "no clock in the system; logical steps", "operations_executed": total_ops},
